@@ -116,6 +116,8 @@ def judge_tables(rep, table, res):
     rep.extra['table_entries'] = dict(items=len(table['items']), pairs=len(table['pairs']),
                                       swaps=sum(1 for p in table['pairs'] if p['out']))
     for em in res.emitted:
+        if em['sec'] == 'tail':
+            continue
         if em['sec'] == 'swap':
             rep.violation('table:SimplexEdge.swap', 'SimplexEdge.swap differs from the model table (which TLC proves map preserving)', dict(code=table['swap']))
         elif em['sec'] == 'item':
